@@ -97,6 +97,13 @@ def make_run(case):
     return {"cfg": cfg, "shapes": shapes, "groups": groups, "T": T, "presence_kind": pk, "presence": presence, "edits": edits, "grad_scale": gs, "grad_kind": rnd.choice(["dense", "dense", "lowrank", "sparse"])}
 
 
+def diverged(params, run):
+    """the run left the numeric regime the generator aims at: some parameter is astronomically larger than anything the
+    gradient scale, learning rate and run length can explain (e.g. root override 1 with a tiny epsilon and no grafting)"""
+    lim = 1e4 * (run["grad_scale"] + max([run["cfg"]["lr"]] + [e[3] for e in run["edits"] if e[2] == "lr"] + [0.3]) * run["T"] + 1.0)
+    return any((not bool(p.detach().isfinite().all())) or float(p.detach().abs().max()) > lim for p in params if p.numel())
+
+
 def execute(run, case_seed, counters, monitor_kwargs=None, on_step=None):
     """build the optimizer, feed the history under the step-locked monitor"""
     ds = import_repo()
@@ -113,6 +120,7 @@ def execute(run, case_seed, counters, monitor_kwargs=None, on_step=None):
     mon = Monitor(ds, torch, opt, cfg, run["groups"], counters=counters, **(monitor_kwargs or {}))
     gg = tgen(*case_seed, "grads")
     edits = list(run["edits"])
+    execute.last_params = params
     for t in range(run["T"]):
         for e in [e for e in edits if e[0] == t]:
             if e[2] == "momentum" and mon.h[e[1]]["momentum"] == 0.0:
@@ -151,6 +159,8 @@ def run_case(case):
         # A non-finite root on a factor that is ill-conditioned by construction is the documented reaction (C13), not a C01 matter.
         if type(e).__name__ == "PreconditionerValueError" and run["cfg"]["epsilon"] < 1e-4 * run["grad_scale"] ** 2:
             counters["aborted_nonfinite_root_ill_conditioned"] = 1
+        elif type(e).__name__ in ("PreconditionerValueError", "ValueError") and diverged(getattr(execute, "last_params", []), run):
+            counters["aborted_diverged"] = 1
         elif type(e).__name__ == "PreconditionerValueError" and obs.nonfinite_from_finite:
             # torch.linalg.eigh itself returned NaN for a finite matrix; raising is the documented reaction (C13)
             counters["aborted_lapack_returned_nonfinite"] = 1
